@@ -177,6 +177,8 @@ def read_hooks(path: Path) -> list[dict[str, str]]:
             if cur is not None:
                 entries.append(cur)
             cur = None
+        elif cur is not None and "META" in cur:
+            cur["META"] += "\n" + ln  # META is printed last; its value (JSON) may span several lines
         elif cur is not None and "=" in ln:
             k, v = ln.split("=", 1)
             cur[k] = v
